@@ -59,18 +59,41 @@ void FeatureChecker::visitEdge(edge_t& edge)
     visitGuard(edge.guard);
 }
 
-void FeatureChecker::visitGuard(expression_t& guard)
+/**
+ * Returns true if a relational operator somewhere in \a e has a floating-point operand.
+ * Rate equations (x' == r) are left to isRateDisallowedInSymbolic().
+ */
+static bool comparesWithFloatingPoint(const expression_t& e)
 {
-    switch (guard.get_kind()) {
+    if (e.empty())
+        return false;
+    switch (e.get_kind()) {
     case Constants::LT:
     case Constants::LE:
     case Constants::EQ:
-        for (size_t i = 0; i < guard.get_size(); ++i) {
-            if (guard.get(i).uses_fp())
-                supported_methods.symbolic = false;
+    case Constants::NEQ:
+    case Constants::GE:
+    case Constants::GT:
+        if (e.get(0).get_kind() == Constants::RATE || e.get(1).get_kind() == Constants::RATE)
+            return false;
+        for (size_t i = 0; i < e.get_size(); ++i) {
+            if (e.get(i).uses_fp())
+                return true;
         }
+        break;
     default: break;
     }
+    for (size_t i = 0; i < e.get_size(); ++i) {
+        if (comparesWithFloatingPoint(e.get(i)))
+            return true;
+    }
+    return false;
+}
+
+void FeatureChecker::visitGuard(expression_t& guard)
+{
+    if (comparesWithFloatingPoint(guard))
+        supported_methods.symbolic = false;
 }
 
 void FeatureChecker::visitAssignment(expression_t& ass)
@@ -93,7 +116,7 @@ void FeatureChecker::visitLocation(location_t& location)
     const auto& invariant = location.invariant;
     if (invariant.empty())
         return;
-    if (isRateDisallowedInSymbolic(invariant))
+    if (isRateDisallowedInSymbolic(invariant) || comparesWithFloatingPoint(invariant))
         supported_methods.symbolic = false;
 }
 
